@@ -116,7 +116,10 @@ theorem messages_nonempty : Tables.messages.all (fun m => !m.isEmpty) = true := 
 /-- the message of an unterminated conditional — the one message the preprocessor parks without
 an `Error` token, so the one `ParserBase::finish` exists for — is among those literals (this ties
 the model's literal to the regenerated table: if the translator lost sight of it, this fails) -/
-theorem eof_message_in_table : eofMsg.toList ∈ Tables.messages := by decide +kernel
+theorem eof_message_in_table : Tables.eofMessage ∈ Tables.messages := by decide +kernel
+
+/-- the model's end-of-text message is that literal -/
+theorem eofMsg_is_table_literal : eofMsg = String.ofList Tables.eofMessage := rfl
 
 /-- `expect(kind)` messages are "expected " followed by the kind's Debug name -/
 theorem expected_message_prefix (k : TokenKind) : expectedMsg k = "expected " ++ k.name := rfl
